@@ -342,6 +342,66 @@ func runC14Concurrent(r *Run, rng *Rng, hn int) {
 		return decideOK
 	}
 	e.In.Plan = plan
+	// bounded progress once faults stop: a client that follows the protocol's
+	// answers (409 tells the recorded size) gets a cosignature within 3 requests
+	progress := func(prng *Rng, when string) {
+		saved := e.In.Plan
+		e.In.Plan = nil
+		defer func() { e.In.Plan = saved }()
+		recSize, recRoot, _ := e.recorded(l)
+		chain := -1
+		for ci, c := range l.Chains {
+			if int(recSize) < len(c.lh) && c.root(int(recSize)) == recRoot {
+				chain = ci
+				break
+			}
+		}
+		if chain < 0 {
+			return // the recorded tree is at the end of every chain: nothing to extend
+		}
+		old := int(recSize)
+		for try := 0; try < 3; try++ {
+			q := c14Req{Chain: chain, Old: old, New: int(recSize) + 1, Proof: "correct", Sig: "valid", Body: "ok"}
+			rec := e.Post("/add-checkpoint", buildC14(e, l, prng.Fork(fmt.Sprint("p", try)), q), nil)
+			r.Eval(1)
+			if rec.Code == 200 {
+				r.Count("progress_after_faults", 1)
+				return
+			}
+			if rec.Code == 409 {
+				fmt.Sscanf(rec.Body.String(), "%d", &old)
+			}
+		}
+		e.violate("witness-stuck-after-faults", "after a fault (%s, %s) a client following the protocol got no cosignature for size %d within 3 requests", fault, when, recSize+1)
+	}
+	// a single forced fault on the very first update, then the client must recover
+	if fault != "none" {
+		forced := false
+		e.In.Plan = func(c *Call) Decision {
+			fmu.Lock()
+			defer fmu.Unlock()
+			if forced {
+				return decideOK
+			}
+			switch {
+			case c.Kind == OpLockReplace && strings.HasPrefix(fault, "lock-fail"):
+				forced = true
+				return Decision{Apply: fault == "lock-fail-applied", Err: errInjected}
+			case c.Kind == OpUpload && strings.HasPrefix(fault, "upload-fail"):
+				forced = true
+				return Decision{Apply: fault == "upload-fail-applied", Err: errInjected}
+			}
+			return decideOK
+		}
+		q := c14Req{Chain: 0, Old: 0, New: 1, Proof: "correct", Sig: "valid", Body: "ok"}
+		rec := e.Post("/add-checkpoint", buildC14(e, l, rng.Fork("forced"), q), nil)
+		r.DistinctKey(fmt.Sprintf("forced-%s/%d", fault, rec.Code))
+		if rec.Code == 200 {
+			e.violate("cosignature-despite-failed-step", "add-checkpoint answered 200 although %s was injected", fault)
+		}
+		progress(rng.Fork("forced-progress"), "right after the forced fault")
+		e.In.Plan = plan
+	}
 	rounds := 6 + rng.Intn(6)
 	for round := 0; round < rounds; round++ {
 		recSize, recRoot, _ := e.recorded(l)
@@ -423,32 +483,5 @@ func runC14Concurrent(r *Run, rng *Rng, hn int) {
 		}
 		_ = on
 	}
-	// bounded progress once faults stop: a client that follows the protocol's
-	// answers (409 tells the recorded size) gets a cosignature within 3 requests
-	e.In.Plan = nil
-	recSize, recRoot, _ := e.recorded(l)
-	chain := -1
-	for ci, c := range l.Chains {
-		if int(recSize) < len(c.lh) && c.root(int(recSize)) == recRoot {
-			chain = ci
-			break
-		}
-	}
-	if chain < 0 {
-		return // the recorded tree is at the end of every chain: nothing to extend
-	}
-	old := int(recSize)
-	for try := 0; try < 3; try++ {
-		q := c14Req{Chain: chain, Old: old, New: int(recSize) + 1, Proof: "correct", Sig: "valid", Body: "ok"}
-		rec := e.Post("/add-checkpoint", buildC14(e, l, rng.Fork(fmt.Sprint("p", try)), q), nil)
-		r.Eval(1)
-		if rec.Code == 200 {
-			r.Count("progress_after_faults", 1)
-			return
-		}
-		if rec.Code == 409 {
-			fmt.Sscanf(rec.Body.String(), "%d", &old)
-		}
-	}
-	e.violate("witness-stuck-after-faults", "after the faults stopped (%s) a client following the protocol got no cosignature for size %d within 3 requests", fault, recSize+1)
+	progress(rng.Fork("final"), "end of history")
 }
